@@ -4,7 +4,8 @@
 # 2. run ./check for the property (and extra properties) against the patched tree
 # 3. store under /verif/seeded/<PID>-<variant>/
 P=$1; V=$2; TIER=${3:-quick}; shift; shift; shift
-W=/tmp/mut/$P; O=/tmp/mut/out/$P/$V; D=/verif/seeded/$P-$V
+MUT=${MUT:-/tmp/mut}; SV=${SV:-$V}   # SV: variant letter used for the stored id (round 2: a->c, b->d)
+W=$MUT/$P; O=$MUT/out/$P/$V; D=/verif/seeded/$P-$SV
 mkdir -p $D
 cd $W && git checkout -q -- . && rm -f tests/seeded_demo.rs
 FEAT=""; [ "$P" = "C19" ] && FEAT="--no-default-features"
@@ -16,16 +17,16 @@ touch src/lib.rs
 mut=$(cargo test --offline $FEAT --test seeded_demo 2>&1 | grep -E "^test result|error\[|could not compile|signal" | head -3 | tr '\n' ' ')
 rm -f tests/seeded_demo.rs
 suite=$(cargo test --offline 2>&1 | grep -E "^test result" | awk '{s+=$4; f+=$6} END {print s" passed "f" failed"}')
-echo "$P-$V demo(clean): $clean | demo(patched): $mut | suite(patched): $suite"
+echo "$P-$SV demo(clean): $clean | demo(patched): $mut | suite(patched): $suite"
 cd /verif
 res=""
 for Q in $P "$@"; do
-  VERIF_REPO=$W VERIF_EVIDENCE_DIR=/var/tmp/avx/seed_ev ./check $Q --tier $TIER > /var/tmp/avx/seed_$P-$V-$Q.log 2>&1; rc=$?
-  caught=$(grep -E "^VIOLATION|^UNDECIDED|^OK" /var/tmp/avx/seed_$P-$V-$Q.log | head -4 | tr '\n' ';')
-  obl=$(grep -E " violation " /var/tmp/avx/seed_$P-$V-$Q.log | awk '{print $1}' | tr '\n' ',')
+  VERIF_REPO=$W VERIF_EVIDENCE_DIR=/var/tmp/avx/seed_ev ./check $Q --tier $TIER > /var/tmp/avx/seed_$P-$SV-$Q.log 2>&1; rc=$?
+  caught=$(grep -E "^VIOLATION|^UNDECIDED|^OK" /var/tmp/avx/seed_$P-$SV-$Q.log | head -4 | tr '\n' ';')
+  obl=$(grep -E " violation " /var/tmp/avx/seed_$P-$SV-$Q.log | awk '{print $1}' | tr '\n' ',')
   echo "   check $Q ($TIER): rc=$rc harnesses=[$obl] $caught" | cut -c1-400
   res="$res $Q:$rc"
 done
 cp $O/patch.diff $O/demo.rs $D/ 2>/dev/null; cp $O/notes.md $D/notes.md 2>/dev/null
 cd $W && git checkout -q -- . 
-echo "$P-$V RESULT$res" >> /var/tmp/avx/seed_results.txt
+echo "$P-$SV RESULT$res" >> /var/tmp/avx/seed_results.txt
